@@ -1,30 +1,56 @@
 /-
   C03, lexer half — every position a lexer reports is canonical.
 
-  English: let `P` be any property of positions that holds of position zero and
-  is preserved by the scanner at the lexer's metrics (if a scan starts at a `P`
-  position, the token's end is a `P` position).  Then every position stored in a
-  lexer created by `Lexer::new` and driven by any sequence of `peek`, `next`,
-  `next_if`, `set_filter`, `with_filter`, `start_sublex`, `into_sublexer`,
-  `advance_to`, `advance_up_to`, `buffer_next`, `set_recover_state` satisfies
-  `P`, and so do both endpoints of `token_span()`, `parse_span()`,
-  `peek_token_span()`, `peek_parse_span()`, and `cursor_pos()`,
-  `peek_cursor_pos()`.  None of these methods changes the metrics.
-  Instantiated with `P p := p is the canonical position (Spec.canon) of a
-  prefix of the text under the lexer's metrics` — which a scanner that measures
-  its tokens with `ColumnMetrics` preserves, C03 part 1 — this is "every
-  reported position is canonical as long as the metrics are not changed after
-  the first scan".
+  English: let `P m` be, for every choice of metrics `m`, a property of
+  positions that holds of position zero and is preserved by the scanner when it
+  is given the metrics `m` (if a scan starts at a `P m` position, the token's
+  end is a `P m` position); and suppose that re-measuring a `P m` position from
+  its byte offset with other metrics `m'` — what the repaired
+  `with_column_metrics` / `with_line_ending` / `with_tab_width` do to every
+  position the lexer holds — gives a `P m'` position.  Then every position
+  stored in a lexer created by `Lexer::new` and driven by ANY sequence of
+  `peek`, `next`, `next_if`, `set_filter`, `with_filter`, `start_sublex`,
+  `into_sublexer`, `advance_to`, `advance_up_to`, `buffer_next`,
+  `set_recover_state` AND the three metrics builders, in any order, satisfies
+  `P` of the lexer's *current* metrics, and so do both endpoints of
+  `token_span()`, `parse_span()`, `peek_token_span()`, `peek_parse_span()`, and
+  `cursor_pos()`, `peek_cursor_pos()`  (`C03_lexer_positions`, which is
+  `C03_lexer_positions_statement`).
 
-  Excluded (hence `_partial`): the builder-order clause.  The full statement
-  `C03_lexer_positions_statement` also allows `with_column_metrics`,
-  `with_line_ending`, `with_tab_width` anywhere in the call sequence and asks
-  for canonicity under the *current* metrics.  That is false of the real code —
-  a recorded defect: `with_filter` / `set_filter` / `start_sublex` scan eagerly,
-  so `Lexer::new(..).with_filter(f).with_tab_width(8)` holds a buffered token
-  measured with the old tab width (`C03_lexer_builder_order_violates`).
-  A metrics builder applied directly to `new` is harmless
-  (`LexInv.new_withTabWidth` …: it is again a `new`).
+  History.  On the pinned tree the builder-order clause was false (finding F11):
+  `with_filter` / `set_filter` / `start_sublex` scan eagerly, so
+  `Lexer::new(..).with_filter(f).with_tab_width(8)` held a buffered token
+  measured with the old tab width.  Repaired in cbd4024: the builders re-measure
+  the cursor, token start, parse start and the buffered lookahead from their
+  byte offsets (`Lexer.remeasureAll`, `LexEnv.measure`).  The clause is now
+  proved, not excluded; the former witness is `C03_former_F11_witness` (the
+  buffered token `a` of `"\t\ta"` is now reported at column 16).
+  `C03_lexer_positions_partial` (metrics not changed after creation; needs no
+  hypothesis on `measure`) is kept.
+
+  Instantiation (`C03_lexer_canonical`): over a well-formed text `t`, with
+  `measure` = `measureText t` (`end_position(&text[..b])`), every position of
+  every reachable lexer is `Spec.canon lx.metrics pre` for a cut `t = pre ++ suf`
+  with `Q pre suf`, where `Q` is any *metrics-independent* description of the
+  offsets the scanner stops at, provided the scanner maps such positions to such
+  positions (`Closed`).  `Q := fun _ _ => True`: the position is the canonical
+  measurement of that prefix.  `Q := AlignedAll` (never between a CR and an LF):
+  the position is `Spec.isCanon` (`C03_lexer_isCanon`).  For the harness
+  scanners `Closed` is proved (`C03_harness_closed`), so
+  `C03_harness_lexer_canonical` has no scanner hypothesis at all.
+  `measureText` itself: `C03_measure_canonical` (any character boundary — the
+  prefix is measured on its own, no alignment needed), `C03_measure_isCanon`
+  (with alignment for the new metrics as a named hypothesis: then the result is
+  `Spec.isCanon`).
+
+  The alignment subtlety.  `Q` must not depend on the metrics: an offset aligned
+  for `lf` (every boundary is) may lie between the CR and the LF of a CRLF pair,
+  and after `with_line_ending(CrLf)` the cursor is still there — its position is
+  the canonical measurement of the prefix ending in CR, but not a `Spec.isCanon`
+  position of the text.  So the statement "every position is `isCanon` for the
+  current metrics, for every scanner that is `isCanon`-closed at each metrics" is
+  FALSE: `C03_lexer_isCanon_per_metrics_fails` (text `"\r\n"`, a scanner that
+  takes one character under `lf` and the pair under `crlf`).
 
   No scanner contract (`ScanOK`) is needed here; unbounded in everything.
 
@@ -40,16 +66,35 @@
 -/
 import TephraProofs.LexInv
 import TephraProofs.RunSpans
+import TephraProofs.MeasureCanon
+import TephraProofs.ScanClosed
 
 namespace Tephra.Props
 open Tephra
 
-/-- Full statement (not a theorem of the real code, see above): `P m` is the
-canonicity predicate under metrics `m`. -/
+/-- The stored-position invariant together with every reported position. -/
+def ReportedOK {σ τ : Type} (P : Pos → Prop) (lx : Lexer σ τ) : Prop :=
+  PosOK P lx ∧
+  (P lx.tokenSpan.s ∧ P lx.tokenSpan.e) ∧ (P lx.parseSpan.s ∧ P lx.parseSpan.e) ∧
+  P lx.cursorPos ∧
+  (∀ sp, lx.peekTokenSpan = some sp → P sp.s ∧ P sp.e) ∧
+  (∀ sp, lx.peekParseSpan = some sp → P sp.s ∧ P sp.e) ∧
+  (∀ p, lx.peekCursorPos = some p → P p)
+
+theorem ReportedOK.of_posOK {σ τ : Type} {P : Pos → Prop} {lx : Lexer σ τ} (h : PosOK P lx) :
+    ReportedOK P lx :=
+  ⟨h, LexInv.tokenSpan_pos h, LexInv.parseSpan_pos h, LexInv.cursorPos_pos h,
+    LexInv.peekTokenSpan_pos h, LexInv.peekParseSpan_pos h, LexInv.peekCursorPos_pos h⟩
+
+/-- Full statement (a theorem since the repair cbd4024: `C03_lexer_positions`): metrics builders
+anywhere; `P m` is the canonicity predicate under metrics `m`.  The third hypothesis is about the
+environment's `measure`: re-measuring (`Lexer.remeasure`: `E.measure m' p.byte`, or `p` itself when
+`p.byte = 0`) a `P m` position gives a `P m'` position. -/
 def C03_lexer_positions_statement : Prop :=
   ∀ (σ τ : Type) (E : LexEnv σ τ) (P : Metrics → Pos → Prop),
     (∀ m, P m Pos.zero) → (∀ m, Closed E (P m) m) →
-    ∀ lx : Lexer σ τ, Lexer.ReachAll E lx → PosOK (P lx.metrics) lx
+    (∀ m m' p, P m p → P m' (Lexer.remeasure E m' p)) →
+    ∀ lx : Lexer σ τ, Lexer.ReachAll E lx → ReportedOK (P lx.metrics) lx
 
 variable {σ τ : Type}
 
@@ -76,6 +121,27 @@ theorem C03_lexer_step (E : LexEnv σ τ) (P : Pos → Prop) {lx lx' : Lexer σ 
 theorem C03_lexer_new (P : Pos → Prop) (h0 : P Pos.zero) (s0 : σ) (m : Metrics) (len : Nat) :
     PosOK P (Lexer.new s0 m len : Lexer σ τ) := LexInv.new_pos h0 s0 m len
 
+/-- One metrics builder (`with_column_metrics` / `with_line_ending` / `with_tab_width`, repaired):
+the invariant moves from the old metrics to the new ones. -/
+theorem C03_lexer_mstep (E : LexEnv σ τ) (P : Metrics → Pos → Prop) {lx lx' : Lexer σ τ}
+    (hre : ∀ m m' p, P m p → P m' (Lexer.remeasure E m' p))
+    (hs : Lexer.MStep E lx lx') (hp : PosOK (P lx.metrics) lx) : PosOK (P lx'.metrics) lx' :=
+  LexInv.mstep_pos hre hs hp
+
+/-- The full lexer theorem, metrics builders anywhere in the call sequence. -/
+theorem C03_lexer_positions : C03_lexer_positions_statement := by
+  intro σ τ E P h0 hc hre lx hr
+  exact ReportedOK.of_posOK (LexInv.reachAll_pos h0 hc hre hr)
+
+/-- The same with the hypothesis on `E.measure` split in its two halves: a held position at byte 0
+is kept by the builders (so it must be `P` for every metrics), any other is `E.measure m' p.byte`. -/
+theorem C03_lexer_positions_measure (E : LexEnv σ τ) (P : Metrics → Pos → Prop)
+    (h0 : ∀ m, P m Pos.zero) (hc : ∀ m, Closed E (P m) m)
+    (hz : ∀ m m' p, P m p → p.byte = 0 → P m' p)
+    (hmeas : ∀ m m' p, P m p → p.byte ≠ 0 → P m' (E.measure m' p.byte))
+    (lx : Lexer σ τ) (hr : Lexer.ReachAll E lx) : ReportedOK (P lx.metrics) lx :=
+  C03_lexer_positions σ τ E P h0 hc (LexInv.remeasure_of_measure hz hmeas) lx hr
+
 /-- Interpreter half: every position in every result, error and logged error of
 `run` satisfies `P`.  (Non-vacuity: see `TephraProps/C13.lean`, `one_fails`.) -/
 theorem C03_run_spans (R : RunEnv) (P : Pos → Prop) (n : Nat) (g : G) (lx : Lx) (ctx : Ctx) (W : World)
@@ -85,14 +151,17 @@ theorem C03_run_spans (R : RunEnv) (P : Pos → Prop) (n : Nat) (g : G) (lx : Lx
     (∀ e ∈ (run R n g lx ctx W).2.log, ErrP P e.body) :=
   RunSpans.run_spans R P n g lx ctx W hc hp hW
 
-/-! Non-vacuity, and the excluded clause as a theorem about the model of the
-real code: a one-tab text.  The scanner reports the end of the tab at column
-`tab`; `P m` = "zero or the canonical end under `m`". -/
+/-! ### Non-vacuity of the generic statements: a one-tab text.
+
+The scanner reports the end of the tab at column `tab`; `tabP m` = "zero or the canonical end under
+`m`"; `measure` is the real one for that text. -/
+
+def tabText : Text := [⟨9, 1, 0⟩]
 
 def tabScan : Unit → Metrics → Pos → Option (Unit × Pos) × Unit := fun s m p =>
   if p.byte = 0 then (some ((), ⟨1, 0, m.tab⟩), s) else (none, s)
 
-def tabEnv : LexEnv Unit Unit := ⟨tabScan, fun _ _ => true⟩
+def tabEnv : LexEnv Unit Unit := ⟨tabScan, fun _ _ => true, measureText tabText⟩
 
 def tabP (m : Metrics) (p : Pos) : Prop := p = Pos.zero ∨ p = ⟨1, 0, m.tab⟩
 
@@ -103,6 +172,24 @@ theorem tabP_closed (m : Metrics) : Closed tabEnv (tabP m) m := by
   · cases h; exact Or.inr rfl
   · cases h
 
+theorem tabText_measure (m : Metrics) : measureText tabText m 1 = ⟨1, 0, m.tab⟩ := by
+  have hw : Text.WF tabText := by intro c hc; simp [tabText] at hc; subst hc; decide
+  have h := MeasureCanon.measureText_cut m tabText [] hw
+  obtain ⟨le, tab⟩ := m
+  rw [List.append_nil] at h
+  rw [show bytes tabText = 1 from rfl] at h
+  rw [h]
+  cases le <;>
+    simp [tabText, Spec.canon, Spec.canonFrom, Spec.linesOf, breakAt, lbCodes, stripCodes,
+      Spec.colWidth, bytes, Pos.zero]
+
+theorem tabP_remeasure (m m' : Metrics) (p : Pos) (h : tabP m p) :
+    tabP m' (Lexer.remeasure tabEnv m' p) := by
+  rcases h with rfl | rfl
+  · exact Or.inl rfl
+  · right
+    simp [Lexer.remeasure, tabEnv, tabText_measure]
+
 /-- Non-vacuity of `C03_lexer_positions_partial`: a lexer two calls away from `new`. -/
 example : ∃ lx : Lexer Unit Unit, Lexer.Reach tabEnv lx ∧ Closed tabEnv (tabP ⟨.lf, 4⟩) lx.metrics ∧
     tabP ⟨.lf, 4⟩ Pos.zero :=
@@ -110,20 +197,303 @@ example : ∃ lx : Lexer Unit Unit, Lexer.Reach tabEnv lx ∧ Closed tabEnv (tab
     by rw [LexInv.step_metrics (.next _), LexInv.step_metrics (.withFilter none _)]; exact tabP_closed _,
     Or.inl rfl⟩
 
-/-- The builder-order defect: after `new(..tab 4..).with_filter(None).with_tab_width(8)`
-the buffered token ends at column 4, which is not canonical for tab width 8. -/
-theorem C03_lexer_builder_order_violates : ¬ C03_lexer_positions_statement := by
-  intro h
-  have hr : Lexer.ReachAll tabEnv
-      (((Lexer.new () ⟨.lf, 4⟩ 1).withFilter tabEnv none).withTabWidth 8) :=
-    .mstep (.step (.new _ _ _) (.withFilter none _)) (.withTabWidth 8 _)
-  have := (h Unit Unit tabEnv tabP (fun _ => Or.inl rfl) tabP_closed _ hr).2.2.2
-  have hb : (((Lexer.new () ⟨.lf, 4⟩ 1).withFilter tabEnv none).withTabWidth 8).buffer =
+/-- Non-vacuity of `C03_lexer_positions`: its three hypotheses hold of `tabEnv` / `tabP`, and
+`new(..tab 4..).with_filter(None).with_tab_width(8)` (the shape of the former defect) is reachable;
+its buffered token now ends at column 8. -/
+example : (∀ m, tabP m Pos.zero) ∧ (∀ m, Closed tabEnv (tabP m) m) ∧
+    (∀ m m' p, tabP m p → tabP m' (Lexer.remeasure tabEnv m' p)) ∧
+    ∃ lx : Lexer Unit Unit, Lexer.ReachAll tabEnv lx ∧ lx.metrics = ⟨.lf, 8⟩ ∧
+      lx.peekCursorPos = some ⟨1, 0, 8⟩ := by
+  refine ⟨fun _ => Or.inl rfl, tabP_closed, tabP_remeasure,
+    ((Lexer.new () ⟨.lf, 4⟩ 1).withFilter tabEnv none).withTabWidth tabEnv 8,
+    .mstep (.step (.new _ _ _) (.withFilter none _)) (.withTabWidth 8 _), by simp [Lexer.new], ?_⟩
+  have hb : ((Lexer.new () ⟨.lf, 4⟩ 1).withFilter tabEnv none).buffer =
       some ⟨(), Pos.zero, ⟨1, 0, 4⟩, ()⟩ := by
-    simp [Lexer.withTabWidth, Lexer.withFilter, Lexer.setFilter, Lexer.bufferNext, Lexer.new]
+    simp [Lexer.withFilter, Lexer.setFilter, Lexer.bufferNext, Lexer.new]
     rw [Lexer.bufferLoop]
     simp [tabEnv, tabScan, Lexer.filtered, Pos.zero]
-  have := (this _ hb).2
-  simp [tabP, Lexer.withTabWidth, Lexer.withFilter, Lexer.setFilter, Pos.zero] at this
+  simp only [Lexer.peekCursorPos, Lexer.withTabWidth, Lexer.remeasureAll, hb]
+  simp [Lexer.remeasure, tabEnv, tabText_measure, Lexer.new]
+
+/-! ### `measureText` is canonical -/
+
+/-- The `measure` of `lexEnv cfg t`: byte offset `bytes pre` of the text `pre ++ suf`, measured with
+any metrics `m`, is the canonical position `Spec.canon m pre` of that prefix.  `pre` well-formed; no
+alignment hypothesis (the prefix is measured on its own). -/
+theorem C03_measure_canonical (m : Metrics) (pre suf : Text) (hwf : Text.WF pre) :
+    measureText (pre ++ suf) m (bytes pre) = Spec.canon m pre :=
+  MeasureCanon.measureText_cut m pre suf hwf
+
+/-- Byte-offset form: `b` a character boundary of a well-formed `t`. -/
+theorem C03_measure_canonical_at (m : Metrics) (t : Text) (hwf : Text.WF t) (b : Nat)
+    (pre suf : Text) (hb : splitAtByte t b = some (pre, suf)) :
+    measureText t m b = Spec.canon m pre := by
+  obtain ⟨rfl, rfl⟩ := MeasureCanon.splitAtByte_some t b pre suf hb
+  exact MeasureCanon.measureText_cut m pre suf (WF_append.mp hwf).1
+
+/-- With alignment for the metrics used (named hypothesis `hal`): the measured position is a
+canonical position of the text in the sense of `Spec.isCanon`. -/
+theorem C03_measure_isCanon (m : Metrics) (pre suf : Text) (hwf : Text.WF (pre ++ suf))
+    (hal : Spec.aligned m pre suf = true) :
+    Spec.isCanon m (pre ++ suf) (measureText (pre ++ suf) m (bytes pre)) = true := by
+  rw [MeasureCanon.measureText_cut m pre suf (WF_append.mp hwf).1]
+  exact (MeasureCanon.isCanon_iff m _ hwf _).mpr ⟨pre, suf, rfl, hal, rfl⟩
+
+def crlfText : Text := [⟨13, 1, 0⟩, ⟨10, 1, 0⟩]
+
+theorem crlfText_wf : Text.WF crlfText := by
+  intro c hc; simp [crlfText] at hc; rcases hc with rfl | rfl <;> decide
+
+theorem crlfText_isCanon (m : Metrics) (p : Pos) :
+    Spec.isCanon m crlfText p = true ↔
+      p = Pos.zero ∨ p = ⟨2, 1, 0⟩ ∨ (m.le = .lf ∧ p = ⟨1, 0, 0⟩) ∨ (m.le = .cr ∧ p = ⟨1, 1, 0⟩) := by
+  obtain ⟨le, tab⟩ := m
+  obtain ⟨b, l, c⟩ := p
+  match b with
+  | 0 =>
+    cases le <;>
+      simp [Spec.isCanon, Spec.canonAt, Spec.cutAt, splitAtByte, Spec.aligned, crlfText, Spec.canon,
+        Spec.canonFrom, Spec.linesOf, Spec.colWidth, bytes, Pos.zero] <;> omega
+  | 1 =>
+    cases le <;>
+      simp [Spec.isCanon, Spec.canonAt, Spec.cutAt, splitAtByte, Spec.aligned, crlfText, Spec.canon,
+        Spec.canonFrom, Spec.linesOf, breakAt, lbCodes, stripCodes, Spec.colWidth, bytes, Pos.zero] <;> omega
+  | 2 =>
+    cases le <;>
+      simp [Spec.isCanon, Spec.canonAt, Spec.cutAt, splitAtByte, Spec.aligned, crlfText, Spec.canon,
+        Spec.canonFrom, Spec.linesOf, breakAt, lbCodes, stripCodes, Spec.colWidth, bytes, Pos.zero] <;> omega
+  | b + 3 =>
+    cases le <;>
+      simp [Spec.isCanon, Spec.canonAt, Spec.cutAt, splitAtByte, crlfText, Pos.zero]
+
+/-- `hal` is necessary: byte 1 of `"\r\n"` is a canonical position under `lf`; measured under
+`crlf` it is still the canonical measurement of the prefix `"\r"`, but not `Spec.isCanon`. -/
+example :
+    Spec.isCanon ⟨.lf, 4⟩ crlfText ⟨1, 0, 0⟩ = true ∧
+    measureText crlfText ⟨.crlf, 4⟩ 1 = ⟨1, 0, 0⟩ ∧ Spec.canon ⟨.crlf, 4⟩ [⟨13, 1, 0⟩] = ⟨1, 0, 0⟩ ∧
+    Spec.isCanon ⟨.crlf, 4⟩ crlfText ⟨1, 0, 0⟩ = false := by
+  have hc : Spec.canon ⟨.crlf, 4⟩ [⟨13, 1, 0⟩] = ⟨1, 0, 0⟩ := by
+    simp [Spec.canon, Spec.canonFrom, Spec.linesOf, breakAt, lbCodes, stripCodes, Spec.colWidth,
+      bytes, Pos.zero]
+  have hw : Text.WF ([⟨13, 1, 0⟩] : Text) := by intro c hc; simp at hc; subst hc; decide
+  have hm := MeasureCanon.measureText_cut ⟨.crlf, 4⟩ [⟨13, 1, 0⟩] [⟨10, 1, 0⟩] hw
+  refine ⟨?_, ?_, hc, ?_⟩
+  · rw [crlfText_isCanon]; simp
+  · rw [← hc, ← hm]; rfl
+  · rw [Bool.eq_false_iff, Ne, crlfText_isCanon]; simp [Pos.zero]
+
+/-! ### The lexer over a text: every position is canonical, builders anywhere -/
+
+/-- Every position of every lexer reachable — through any sequence of public calls, metrics
+builders anywhere — over an environment whose `measure` is `measureText t` (`t` well-formed) is
+`Spec.canon lx.metrics pre` for a cut `t = pre ++ suf` with `Q pre suf` (so `pre` is the prefix of
+`t` of `p.byte` bytes).  `Q` is a metrics-independent property of cuts, true of the cut at 0;
+hypothesis on the scanner: at every metrics `m` it maps such positions (for `m`) to such positions
+(for `m`). -/
+theorem C03_lexer_canonical (E : LexEnv σ τ) (t : Text) (hwf : Text.WF t)
+    (hE : E.measure = measureText t) (Q : Text → Text → Prop) (hQ0 : Q [] t)
+    (hc : ∀ m, Closed E (CanonCut t Q m) m)
+    (lx : Lexer σ τ) (hr : Lexer.ReachAll E lx) : ReportedOK (CanonCut t Q lx.metrics) lx :=
+  C03_lexer_positions σ τ E (CanonCut t Q) (MeasureCanon.canonCut_zero t Q hQ0) hc
+    (MeasureCanon.canonCut_remeasure E t hwf hE Q) lx hr
+
+/-- `Q := True`: every position is the canonical measurement, under the current metrics, of the
+prefix of `t` of that many bytes. -/
+theorem C03_lexer_canonical_prefix (E : LexEnv σ τ) (t : Text) (hwf : Text.WF t)
+    (hE : E.measure = measureText t)
+    (hc : ∀ m, Closed E (fun p => ∃ pre suf, t = pre ++ suf ∧ p = Spec.canon m pre) m)
+    (lx : Lexer σ τ) (hr : Lexer.ReachAll E lx) :
+    ReportedOK (fun p => ∃ pre suf, t = pre ++ suf ∧ bytes pre = p.byte ∧
+      p = Spec.canon lx.metrics pre) lx := by
+  have h := LexInv.reachAll_pos (E := E)
+    (Pm := fun m p => ∃ pre suf, t = pre ++ suf ∧ bytes pre = p.byte ∧ p = Spec.canon m pre) (lx := lx)
+    (fun m => ⟨[], t, rfl, rfl, (canon_nil m).symm⟩)
+    (by
+      intro m s p tok adv s' ⟨pre, suf, h1, _, h2⟩ hs
+      obtain ⟨pre', suf', h1', h2'⟩ := hc m s p tok adv s' ⟨pre, suf, h1, h2⟩ hs
+      exact ⟨pre', suf', h1', by rw [h2', canon_byte], h2'⟩)
+    (by
+      intro m m' p ⟨pre, suf, h1, _, h2⟩
+      obtain ⟨pre', suf', h1', _, h2'⟩ :=
+        MeasureCanon.canonCut_remeasure E t hwf hE (fun _ _ => True) m m' p ⟨pre, suf, h1, trivial, h2⟩
+      exact ⟨pre', suf', h1', by rw [h2', canon_byte], h2'⟩)
+    hr
+  exact ReportedOK.of_posOK h
+
+/-- `Q := AlignedAll` (the scanner never stops between a CR and an LF): every position is a
+canonical position of the text for the current metrics, `Spec.isCanon`. -/
+theorem C03_lexer_isCanon (E : LexEnv σ τ) (t : Text) (hwf : Text.WF t)
+    (hE : E.measure = measureText t) (hc : ∀ m, Closed E (CanonCut t AlignedAll m) m)
+    (lx : Lexer σ τ) (hr : Lexer.ReachAll E lx) :
+    ReportedOK (fun p => Spec.isCanon lx.metrics t p = true) lx := by
+  have h := (C03_lexer_canonical E t hwf hE AlignedAll (MeasureCanon.alignedAll_nil t) hc lx hr).1
+  have h' : PosOK (fun p => Spec.isCanon lx.metrics t p = true) lx :=
+    ⟨MeasureCanon.isCanon_of_alignedAll _ t hwf _ h.1,
+     MeasureCanon.isCanon_of_alignedAll _ t hwf _ h.2.1,
+     MeasureCanon.isCanon_of_alignedAll _ t hwf _ h.2.2.1,
+     fun b hb => ⟨MeasureCanon.isCanon_of_alignedAll _ t hwf _ (h.2.2.2 b hb).1,
+       MeasureCanon.isCanon_of_alignedAll _ t hwf _ (h.2.2.2 b hb).2⟩⟩
+  exact ReportedOK.of_posOK h'
+
+/-- The scanner hypothesis of `C03_lexer_isCanon` holds of the harness scanners, for every
+configuration, text and metrics. -/
+theorem C03_harness_closed (cfg : ScanCfg) (t : Text) (hwf : Text.WF t) (m : Metrics) :
+    Closed (lexEnv cfg t) (CanonCut t AlignedAll m) m := ScanClosed.scanText_closed cfg t hwf m
+
+/-- Hence, with no hypothesis on the scanner: every position of every lexer reachable over
+`lexEnv cfg t` is `Spec.isCanon` for the lexer's current metrics. -/
+theorem C03_harness_lexer_canonical (cfg : ScanCfg) (t : Text) (hwf : Text.WF t)
+    (lx : Lexer Nat Tok) (hr : Lexer.ReachAll (lexEnv cfg t) lx) :
+    ReportedOK (fun p => Spec.isCanon lx.metrics t p = true) lx :=
+  C03_lexer_isCanon (lexEnv cfg t) t hwf rfl (C03_harness_closed cfg t hwf) lx hr
+
+/-! ### The alignment subtlety: `isCanon` per metrics is not preserved by `with_line_ending`
+
+A scanner over `"\r\n"` that takes one character at a time under `lf` / `cr` and the pair under
+`crlf`; all its positions are absolute and `Spec.isCanon` for the metrics it is given. -/
+
+def crlfScan : Unit → Metrics → Pos → Option (Unit × Pos) × Unit := fun s m p =>
+  match m.le, p.byte with
+  | .crlf, 0 => (some ((), ⟨2, 1, 0⟩), s)
+  | .lf, 0 => (some ((), ⟨1, 0, 0⟩), s)
+  | .lf, 1 => (some ((), ⟨2, 1, 0⟩), s)
+  | .cr, 0 => (some ((), ⟨1, 1, 0⟩), s)
+  | .cr, 1 => (some ((), ⟨2, 1, 0⟩), s)
+  | _, _ => (none, s)
+
+def crlfEnv : LexEnv Unit Unit := ⟨crlfScan, fun _ _ => true, measureText crlfText⟩
+
+theorem crlfScan_closed (m : Metrics) :
+    Closed crlfEnv (fun p => Spec.isCanon m crlfText p = true) m := by
+  intro s p tok adv s' _ h
+  simp only [crlfEnv, crlfScan] at h
+  rw [crlfText_isCanon]
+  split at h <;> cases h <;> simp_all
+
+/-- "Every position is `Spec.isCanon` for the current metrics, for every scanner that preserves
+`isCanon m` at each `m`" is false, repaired builders or not: after `next` under `lf` the cursor is
+between the CR and the LF, and `with_line_ending(CrLf)` leaves it there. -/
+theorem C03_lexer_isCanon_per_metrics_fails :
+    ¬ (∀ (σ τ : Type) (E : LexEnv σ τ) (t : Text), Text.WF t → E.measure = measureText t →
+        (∀ m, Closed E (fun p => Spec.isCanon m t p = true) m) →
+        ∀ lx : Lexer σ τ, Lexer.ReachAll E lx →
+          PosOK (fun p => Spec.isCanon lx.metrics t p = true) lx) := by
+  intro h
+  have hr : Lexer.ReachAll crlfEnv
+      (((Lexer.new () ⟨.lf, 4⟩ 2).next crlfEnv).2.withLineEnding crlfEnv .crlf) :=
+    .mstep (.step (.new _ _ _) (.next _)) (.withLineEnding .crlf _)
+  have h1 := (h Unit Unit crlfEnv crlfText crlfText_wf rfl crlfScan_closed _ hr).2.2.1
+  have hcur : ((Lexer.new () ⟨.lf, 4⟩ 2).next crlfEnv).2.cursor = ⟨1, 0, 0⟩ := by
+    simp [Lexer.next, Lexer.new, Pos.zero]
+    rw [Lexer.nextLoop]
+    simp [crlfEnv, crlfScan, Lexer.filtered]
+  have hw : Text.WF ([⟨13, 1, 0⟩] : Text) := by intro c hc; simp at hc; subst hc; decide
+  have hm : measureText crlfText ⟨.crlf, 4⟩ 1 = ⟨1, 0, 0⟩ := by
+    have := MeasureCanon.measureText_cut ⟨.crlf, 4⟩ [⟨13, 1, 0⟩] [⟨10, 1, 0⟩] hw
+    rw [show measureText crlfText ⟨.crlf, 4⟩ 1 = _ from this]
+    simp [Spec.canon, Spec.canonFrom, Spec.linesOf, breakAt, lbCodes, stripCodes, Spec.colWidth,
+      bytes, Pos.zero]
+  have hc2 : (((Lexer.new () ⟨.lf, 4⟩ 2).next crlfEnv).2.withLineEnding crlfEnv .crlf).cursor
+      = ⟨1, 0, 0⟩ := by
+    simp only [Lexer.withLineEnding, Lexer.remeasureAll, hcur, Lexer.remeasure]
+    simp [crlfEnv, hm, LexInv.next_metrics, Lexer.new]
+  rw [hc2, crlfText_isCanon] at h1
+  simp [Pos.zero, Lexer.withLineEnding, Lexer.remeasureAll] at h1
+
+/-! ### The former F11 witness
+
+`"\t\ta"`, whitespace filtered: `new(tab 4).with_filter(f).with_tab_width(8)`.  Before the repair
+the buffered `a` kept the columns 8–9 measured with tab width 4; now every held position is
+re-measured, the token is at columns 16–17, and the lexer is the one obtained by configuring the
+tab width first. -/
+
+def f11Text : Text := [⟨9, 1, 0⟩, ⟨9, 1, 0⟩, ⟨97, 1, 1⟩]
+def f11Env : LexEnv Nat Tok := lexEnv (ScanCfg.ofId 0) f11Text
+
+private theorem f11_step (tab : Nat) (p : Pos) (c : Ch) (r : Text) : stepSuf ⟨.lf, tab⟩ p (c :: r) =
+    if c.code = 10 then some (⟨p.byte + 1, p.line + 1, 0⟩, r) else some (stepCh ⟨.lf, tab⟩ p c, r) := by
+  simp only [stepSuf, breakAt, lbCodes, stripCodes, lbLen]; split <;> simp_all
+
+private theorem f11_ws (tab : Nat) : afterMatchingSuf ⟨.lf, tab⟩ isWs ⟨0, 0, 0⟩
+    [⟨9, 1, 0⟩, ⟨9, 1, 0⟩, ⟨97, 1, 1⟩] = ⟨2, 0, tab + tab⟩ := by
+  rw [afterMatchingSuf, f11_step]
+  simp [stepCh, isWs]
+  rw [afterMatchingSuf, f11_step]
+  simp [stepCh, isWs]
+  rw [afterMatchingSuf, f11_step]
+  simp [stepCh, isWs]
+
+private theorem f11_scan0 (tab : Nat) : scanText (ScanCfg.ofId 0) f11Text 1 ⟨.lf, tab⟩ ⟨0, 0, 0⟩
+    = (some (⟨12, 0⟩, ⟨2, 0, tab + tab⟩), 2) := by
+  simp [scanText, splitAtByte, Pos.zero, ScanCfg.ofId, kindOf, kWs, resOpt,
+    Source.positionAfterCharsMatching, Source.withByteOffset, csub, positionAfterCharsMatching,
+    f11_ws, f11Text, Source.sliceBytes]
+
+private theorem f11_scan2 (tab c : Nat) : scanText (ScanCfg.ofId 0) f11Text 2 ⟨.lf, tab⟩ ⟨2, 0, c⟩
+    = (some (⟨0, 0⟩, ⟨3, 0, c + 1⟩), 4) := by
+  simp [scanText, f11Text, splitAtByte, ScanCfg.ofId, kindOf, kWs, resOpt, Pos.zero,
+    Source.nextPosition, Source.withByteOffset, csub, nextPosition,
+    f11_step, stepCh, Source.sliceBytes]
+
+/-- The lexer sitting at the `a` of `"\t\ta"` (column `2·tab`), the `a` buffered. -/
+def f11Lexer (tab : Nat) : Lexer Nat Tok :=
+  { metrics := ⟨.lf, tab⟩, len := 3, scanner := 2, filter := some 1, recover := none,
+    buffer := some ⟨4, ⟨2, 0, tab + tab⟩, ⟨3, 0, tab + tab + 1⟩, ⟨0, 0⟩⟩,
+    parseStart := ⟨2, 0, tab + tab⟩, tokenStart := ⟨2, 0, tab + tab⟩, cursor := ⟨2, 0, tab + tab⟩ }
+
+/-- `new(tab).with_filter(skip whitespace)` on `"\t\ta"`. -/
+theorem f11_withFilter (tab : Nat) :
+    (Lexer.new 1 ⟨.lf, tab⟩ 3 : Lexer Nat Tok).withFilter f11Env (some 1) = f11Lexer tab := by
+  unfold f11Lexer
+  simp only [Lexer.withFilter, Lexer.setFilter, Lexer.bufferNext, Lexer.new]
+  simp
+  rw [Lexer.bufferLoop]
+  simp [f11Env, lexEnv, f11_scan0, Lexer.filtered, passesMask, classOf, Pos.zero]
+  rw [Lexer.bufferLoop]
+  simp [f11_scan2, Lexer.filtered, passesMask, classOf]
+
+private theorem f11_wf : Text.WF f11Text := by
+  intro c hc; simp [f11Text] at hc; rcases hc with rfl | rfl <;> decide
+
+private theorem f11_measure2 (tab : Nat) : measureText f11Text ⟨.lf, tab⟩ 2 = ⟨2, 0, tab + tab⟩ := by
+  have hw : Text.WF ([⟨9, 1, 0⟩, ⟨9, 1, 0⟩] : Text) := by
+    intro c hc; simp at hc; subst hc; decide
+  have h := MeasureCanon.measureText_cut ⟨.lf, tab⟩ [⟨9, 1, 0⟩, ⟨9, 1, 0⟩] [⟨97, 1, 1⟩] hw
+  rw [show measureText f11Text ⟨.lf, tab⟩ 2 = _ from h]
+  simp [Spec.canon, Spec.canonFrom, Spec.linesOf, breakAt, lbCodes, stripCodes, Spec.colWidth,
+    bytes, Pos.zero]
+
+private theorem f11_measure3 (tab : Nat) : measureText f11Text ⟨.lf, tab⟩ 3 = ⟨3, 0, tab + tab + 1⟩ := by
+  have h := MeasureCanon.measureText_cut ⟨.lf, tab⟩ f11Text [] f11_wf
+  rw [List.append_nil] at h
+  rw [show measureText f11Text ⟨.lf, tab⟩ 3 = _ from h]
+  simp [f11Text, Spec.canon, Spec.canonFrom, Spec.linesOf, breakAt, lbCodes, stripCodes,
+    Spec.colWidth, bytes, Pos.zero]
+
+/-- The former F11 witness, after the repair: the buffered token `a` and the cursor / token start /
+parse start are the positions measured with tab width 8 (`a` at columns 16–17, canonical), the
+reported `peek_token_span` is 16–17, and the builder order no longer matters on this input. -/
+theorem C03_former_F11_witness :
+    let lx := ((Lexer.new 1 ⟨.lf, 4⟩ 3 : Lexer Nat Tok).withFilter f11Env (some 1)).withTabWidth f11Env 8
+    Lexer.ReachAll f11Env lx ∧
+    lx.buffer = some ⟨4, ⟨2, 0, 16⟩, ⟨3, 0, 17⟩, ⟨0, 0⟩⟩ ∧
+    lx.cursor = ⟨2, 0, 16⟩ ∧ lx.tokenStart = ⟨2, 0, 16⟩ ∧ lx.parseStart = ⟨2, 0, 16⟩ ∧
+    lx.peekTokenSpan = some ⟨⟨2, 0, 16⟩, ⟨3, 0, 17⟩⟩ ∧
+    Spec.isCanon ⟨.lf, 8⟩ f11Text ⟨2, 0, 16⟩ = true ∧ Spec.isCanon ⟨.lf, 8⟩ f11Text ⟨3, 0, 17⟩ = true ∧
+    lx = ((Lexer.new 1 ⟨.lf, 4⟩ 3 : Lexer Nat Tok).withTabWidth f11Env 8).withFilter f11Env (some 1) := by
+  intro lx
+  have hlx : lx = f11Lexer 8 := by
+    simp only [lx, f11_withFilter]
+    simp [f11Lexer, Lexer.withTabWidth, Lexer.remeasureAll, Lexer.remeasure, f11Env, lexEnv,
+      f11_measure2, f11_measure3]
+  have hr : Lexer.ReachAll f11Env lx :=
+    .mstep (.step (.new _ _ _) (.withFilter _ _)) (.withTabWidth 8 _)
+  have hcanon := (C03_harness_lexer_canonical (ScanCfg.ofId 0) f11Text f11_wf lx hr).1
+  refine ⟨hr, by rw [hlx]; rfl, by rw [hlx]; rfl, by rw [hlx]; rfl, by rw [hlx]; rfl, ?_, ?_, ?_, ?_⟩
+  · rw [hlx]; simp [f11Lexer, Lexer.peekTokenSpan, Span.enclosing]
+  · have := hcanon.2.2.1; rw [hlx] at this; exact this
+  · have := (hcanon.2.2.2 _ (by rw [hlx]; rfl)).2; rw [hlx] at this; exact this
+  · rw [LexInv.new_withTabWidth, hlx]
+    exact (f11_withFilter 8).symm
 
 end Tephra.Props
